@@ -66,8 +66,8 @@ def verify_item(item, timeout_ms=None):
             rep["file"] = "contracts/lemmas.py"
             # vacuity guard: `False` must not follow from the hypotheses of any step
             for oname, pc, g, _, _, _ in obs:
-                cr = solve.prove(pc, z3.BoolVal(False), use_cvc5=False, timeout_ms=1500)
-                if cr.status == "proved":
+                cr, _ = solve.check_sat(pc, timeout_ms=1200, mbqi=False)
+                if cr == "unsat":
                     rep["status"] = "error"
                     rep["message"] = f"vacuous lemma step {oname}: its hypotheses are contradictory"
             rep["canary"] = "ok" if rep["status"] == "ok" else "FAILED"
@@ -75,7 +75,7 @@ def verify_item(item, timeout_ms=None):
             con = st["reg"].get(name)
             if con is None:
                 raise ContractError(f"no contract named {name}")
-            fi = st["prog"].lookup(name.split("$")[0])  # `f$variant`: the same function under a second contract
+            fi = st["prog"].lookup(getattr(con, "source", None) or name.split("$")[0])  # `f$variant`: second contract
             if fi is None:
                 raise OutsideSubset(f"drift: {name} no longer exists in the program")
             rep["file"], rep["line"], rep["source_hash"] = fi.file, fi.line, fi.source_hash()
